@@ -38,5 +38,18 @@ RoundTripOK(rows, cols, h) ==
   /\ \A i \in 1..rows, j \in 1..cols : r[3][i][j] = <<i, j>>
 RoundTripBlankOK(rows, cols, h, hb) ==
   LET r == ImportTable(FileOfB(rows, cols, h, hb), h) IN r # Undefined /\ r[1] = rows /\ r[2] = cols /\ \A i \in 1..rows, j \in 1..cols : r[3][i][j] = <<i, j>>
+\* Beyond the listed properties: Interpolation::Save_Function / Interpolation_2D::Save_Function are exporters of the same
+\* file machine (no header; one line per sample of the domain grid, x-major for two dimensions; y_points = 0 means x_points)
+SavedRows(dim, xp, yp) == IF dim = 1 THEN xp ELSE xp * (IF yp = 0 THEN xp ELSE yp)
+SavedCols(dim) == dim + 1
+\* cell <<r, c>> of the saved file of a two-dimensional function: row r belongs to grid node (ix, iy)
+SavedNode(r, yp) == <<((r - 1) \div yp) + 1, ((r - 1) % yp) + 1>>
+SavedOK(dim, xp, yp) ==
+  LET rows == SavedRows(dim, xp, yp) IN
+  /\ RoundTripOK(rows, SavedCols(dim), 0)
+  /\ dim = 2 => LET ny == IF yp = 0 THEN xp ELSE yp IN
+                 /\ {SavedNode(r, ny) : r \in 1..rows} = (1..xp) \X (1..ny)                 \* every node once
+                 /\ \A r \in 1..(rows - 1) : LET a == SavedNode(r, ny) b == SavedNode(r + 1, ny) IN   \* x-major order
+                        \/ (a[1] = b[1] /\ b[2] = a[2] + 1) \/ (b[1] = a[1] + 1 /\ a[2] = ny /\ b[2] = 1)
 ListRoundTripOK(rows, h) == ImportList(FileOf(rows, 1, h), h) = [i \in 1..rows |-> <<i, 1>>]
 =============================================================================
